@@ -181,6 +181,12 @@ def _run(ctx, quick, pool):
     ctx.notes["solver_configurations_covered"] = f"{len(covered_cfg)}/{ncfg}"
     ctx.notes["max_interpolation_error_ulp"] = round(max_ulp, 3)
     ctx.notes["recorded_traces_validated_by_tlc"] = len(traces)
+    # ---- traces harvested from the repository's own test-suite (DESIGN 4.2 (ii)): every integrate call of the
+    # selected tests - forward solves and the backward segments of sdeint_adjoint - validated by TraceLoop
+    from harness import harvest_run
+    harvest_run.harvest(ctx, "sdeint_quick" if quick else "sdeint", ["loop"], workers=8 if quick else 16)
+    if not quick:
+        harvest_run.harvest(ctx, "adjoint", ["loop"], selftest=False)
     if len(covered_cfg) != ncfg:
         raise RuntimeError("stratification left a solver configuration uncovered")
 
